@@ -94,7 +94,10 @@ def run(ctx):
             scanner.rule_S5(sc, rep)
         rep.guarded("scanner", scanner.MOD + name, scan)
     rep.guarded("reach", "adapter::strip", lambda: rule_reach(facts, rep))
-    for r, n in (("table", 16), ("keep", 18), ("S1", 7), ("S2", 8), ("S3", 3), ("S4", 3), ("S5", 12), ("reach", 12)):
+    # the never-colour stream's clause: what it delivers is the adapter's output only if the short-write path replays correctly
+    from rules import stripstream
+    rep.guarded("W1", "anstream::strip::write", lambda: stripstream.rule_W1_W3(facts, rep))
+    for r, n in (("table", 16), ("keep", 17), ("S1", 7), ("S2", 8), ("S3", 3), ("S4", 3), ("S5", 12), ("reach", 12), ("W1", 4)):
         rep.floor(r, n)
 
 
@@ -139,23 +142,24 @@ def rule_keep(facts, rep):
               f"whole run against one state: {moves[:6]}", where)
     rep.check(not begin, "keep", b["path"], "BeginUtf8-only-from-Ground",
               f"multi-byte characters start only in Ground, so leaving Utf8 for Ground restores the pre-character state: {begin[:6]}", where)
-    # utf8 continuation predicate = 0x80..=0xbf exactly
-    c = facts.body("anstream", scanner.MOD + "is_utf8_continuation")
+    # utf8 continuation helper, when the scanner has one: exactly 0x80..=0xbf (the scanner rules classify whatever byte test
+    # the take phase really uses, so the helper is optional)
+    try:
+        c = facts.body("anstream", scanner.MOD + "is_utf8_continuation")
+    except AnchorMissing:
+        rep.note("no is_utf8_continuation helper: the take-phase byte tests are classified by rule S3 directly")
+        return
     rep.fn(c["path"])
-    e = hir.simp(c["hir"])
-    while e.get("k") == "block":
-        e = hir.simp(hir.stmts_of(e)[0])
-    got = set()
-    if e.get("k") == "match":
-        for byte in range(256):
-            for arm in e["arms"]:
-                s = hir.pat_ints(arm["pat"])
-                if s is None or byte in s:
-                    if hir.lit_val(arm["body"]) is True:
-                        got.add(byte)
-                    break
-    rep.check(got == set(range(0x80, 0xc0)), "keep", c["path"], "continuation==80..bf", f"{len(got)} bytes", loc(c))
+    got = scanner.byte_pred(ac_single(c["hir"]), c["params"][0]["name"], facts)
+    rep.check(got == scanner.CONT, "keep", c["path"], "continuation==80..bf", f"{len(got or [])} bytes", loc(c))
     rep.count(256)
+
+
+def ac_single(e):
+    e = hir.simp(e)
+    while e.get("k") == "block" and not e.get("stmts") and "expr" in e:
+        e = hir.simp(e["expr"])
+    return e
 
 
 def rule_reach(facts, rep):
